@@ -9,6 +9,7 @@ index equals the planned one, a fault is injected instead of / around it:
   crash-prefix:n      write ops: first n units reach the file, then the process dies
   err:<ERRNO>         operation fails with OSError(errno), nothing done
   err-prefix:<ERRNO>:n  write ops: n units written, then OSError
+  short:n             os.write only: n bytes written and n returned (a short write, no error)
 
 After a crash the filesystem is frozen: later intercepted mutations are dropped,
 because a dead process runs no cleanup handlers.  Files opened for writing are
@@ -176,6 +177,8 @@ class FaultFS:
                 return ("prefix", int(parts[1]), "crash")
             if parts[0] == "err-prefix":
                 return ("prefix", int(parts[2]), "err:" + parts[1])
+            if parts[0] == "short":
+                return ("prefix", int(parts[1]), "short")
             raise ValueError(kind)
         return "do"
 
@@ -257,13 +260,15 @@ class FaultFS:
         rel = self._fds.get(fd)
         if rel is None:
             return real(fd, data)
-        act = self._op("write", rel, n=len(data))
+        act = self._op("os.write", rel, n=len(data))
         if act == "drop":
             return len(data)
         if isinstance(act, tuple):
             n = min(act[1], len(data))
             if n:
                 real(fd, bytes(data)[:n])
+            if act[2] == "short":
+                return n        # a short write: the kernel took only n bytes and reported so (disk filling up)
             self._finish(act[2])
         r = real(fd, data)
         self._post()
@@ -331,7 +336,7 @@ def fault_kinds(op):
     name, _, info = op
     if name == "open-read":
         return ["err:EACCES", "err:EIO"]
-    if name == "write":
+    if name in ("write", "os.write"):
         n = info.get("n", 0)
         kinds = ["crash-before", "err:EIO", "err:ENOSPC"]
         for k in sorted({1, n // 2, n - 1}):
@@ -339,6 +344,8 @@ def fault_kinds(op):
                 kinds.append("crash-prefix:%d" % k)
         if n > 1:
             kinds.append("err-prefix:ENOSPC:%d" % (n // 2))
+            if name == "os.write":
+                kinds.append("short:%d" % (n // 2))     # os.write may legitimately return a short count
         kinds.append("crash-after")
         return kinds
     if name in ("chmod",):
